@@ -37,7 +37,7 @@ KINDS = ["minkowski", "msm", "fourier", "gsl", "likelihood", "moments18"]
 
 
 def gen_cases(tier, seed):
-    n = 28 if tier == "quick" else 500
+    n = 28 if tier == "quick" else 1500
     return [{"kind": k, "i": i, "seed": seed} for i in range(n) for k in KINDS]
 
 
